@@ -36,12 +36,20 @@ def one_run(build, kind, sr_name, method, tol, kmax, dtype, project, tol_scale=1
     import torch, fggs
     run = {'sr': sr_name, 'method': method, 'kmax': kmax, 'tolu': max(1, math.ceil(tol * tol_scale * AG.FXS)), 'out': 'ok', 'warned': False, 'res': {},
            'tag': [kind, method, f'tol={tol}', f'kmax={kmax}', str(dtype).replace('torch.', '')]}
+    import sys
+    SPM = sys.modules['fggs.sum_product']
+    log = getattr(SPM, '_verif_trace', None)
+    if log is not None:
+        del log[:]
     try:
         g = build()
         with warnings.catch_warnings(record=True) as wl:
             warnings.simplefilter('always')
-            with torch.no_grad():
-                sp = fggs.sum_products(g, method=method, semiring=AG.semiring_for(kind, dtype), tol=tol, kmax=kmax)
+            try:
+                with torch.no_grad():
+                    sp = fggs.sum_products(g, method=method, semiring=AG.semiring_for(kind, dtype), tol=tol, kmax=kmax)
+            finally:
+                run['trace'] = [list(list(x) if isinstance(x, tuple) else x for x in ev) for ev in (log or [])]
         run['warned'] = any('convergence' in str(w.message) or 'iteration' in str(w.message) for w in wl)
         for el, t in sp.items():
             if el.is_nonterminal:
@@ -102,6 +110,22 @@ def run(tier, seed):
     nfx, nex = (60, 60) if tier == 'quick' else (500, 600)
     with Scratch() as work:
         cases = pmap(drive_fx, [(seed, i, tier) for i in range(nfx)], chunksize=2) + pmap(drive_exact, [(seed, i, tier) for i in range(nex)], chunksize=2)
+        # the solver-driver event log of every call (hook), validated against spec/Solver.tla
+        scases = []
+        for c in cases:
+            gg = {'els': c['ag']['els'], 'rules': [{'lhs': r['lhs'], 'edges': [{'lab': e['lab']} for e in r['edges']]} for r in c['ag']['rules']]}
+            for r in c['runs']:
+                tr_ = r.pop('trace', None)
+                if tr_:
+                    scases.append({'ag': gg, 'trace': tr_, 'warned': r['warned'], 'out': 'ok' if r['out'] == 'ok' else 'raise', 'tag': r['tag']})
+        if scases:
+            sv, st, tr, _ = judge_batch(work / 'solver', 'Trace_Solver', scases, per_shard_min=100, heap='3g')
+            o.states += st
+            o.transitions += tr
+            o.absorb_verdicts(scases, sv, load_findings(), part='solver_driver')
+            o.extra['solver_traces_validated'] = len(scases)
+            o.extra['solver_events'] = sum(len(c['trace']) for c in scases)
+            o.extra['solver_model_drift'] = sum(1 for v in sv.values() if v.get('drift'))
         verdicts, st, tr, _ = judge_batch(work / 'judge', 'Trace_Recursive', cases, per_shard_min=8, heap='3g')
         o.states += st
         o.transitions += tr
